@@ -173,10 +173,12 @@ def observe(case, en):
     # ---- force_algorithm, seen through a wrapper of the layout function ----------------------------------
     if case["call"] in ("force", "both"):
         libcost: list = []
+        iters: list = []
 
         def run_force():
             calls = []
             libcost.clear()
+            iters.clear()
 
             def wrap(d, kp=1.0, verbose=False, visualize=None, max_iter=100):
                 res = orig_layout(d, kp, verbose, visualize, max_iter)
@@ -198,6 +200,7 @@ def observe(case, en):
                 except Exception:
                     lib = math.nan
                 libcost.append(lib)
+                iters.append(int(max_iter))      # the iteration count this layout call was given
                 calls.append((kp, cost, "|".join(_centres(rd, S)[2])))
                 return res
             fr.fruchterman_reingold_layout = wrap
@@ -211,6 +214,7 @@ def observe(case, en):
         try:
             rF, calls = run_force()
             first_lib = list(libcost)
+            first_iters = list(iters)
             ok, fin, bitsA = _centres(rF, S)
             t.update(ret=1, ok=ok, fin=fin, sig1=_sig(rF), bitsA=bitsA, bitsV=bitsA, snaps=[])
             try:
@@ -235,8 +239,10 @@ def observe(case, en):
             rank_of = {x: i + 1 for i, x in enumerate(order)}
             ranks = [rank_of.get(x, COSTINF) for x in lc] + [COSTINF] * (len(tried) - len(lc))
             traces.append({"kind": "sel", "call": "force_algorithm", "n": n,
-                           "tried": [[round(k * 1000), round(c * sc), l, ranks[i]] if (isinstance(c, float) and math.isfinite(c))
-                                     else [round(k * 1000), COSTINF, l, COSTINF] for i, (k, c, l) in enumerate(tried)],
+                           # <<kappa, cost, layout, rank, iterations the try was run with>>
+                           "tried": [([round(k * 1000), round(c * sc), l, ranks[i]] if (isinstance(c, float) and math.isfinite(c))
+                                      else [round(k * 1000), COSTINF, l, COSTINF]) + [first_iters[i] if i < len(first_iters) else -1]
+                                     for i, (k, c, l) in enumerate(tried)],
                            "final_kappa": round(calls[-1][0] * 1000),
                            "lay": "|".join(t["bitsA"])})
         elif t["ret"]:
@@ -317,11 +323,12 @@ def from_tlc(g, rng: random.Random, idx: int) -> dict:
             "flavour": (idx // 3) % 4}
 
 
-def random_cases(rng: random.Random, count: int) -> list[dict]:
+def random_cases(rng: random.Random, count: int, long: bool = False) -> list[dict]:
+    """long: force_algorithm with iteration counts ABOVE its default of 100 (101, 150, 250) on small designs (2-4 modules)"""
     cases = []
     for i in range(count):
         W, H = 2 * rng.randint(8, 32), 2 * rng.randint(8, 32)
-        nm = rng.randint(2, 12)
+        nm = rng.randint(2, 4) if long else rng.randint(2, 12)
         special = [(0, 0), (W, 0), (0, H), (W, H), (W // 2, 0), (0, H // 2), (W, H // 2), (W // 2, H), (W // 2, H // 2)]
         mods, fixed_rects, used = [], [], []
         for j in range(nm):
@@ -364,6 +371,8 @@ def random_cases(rng: random.Random, count: int) -> list[dict]:
             nets.append(rng.sample(names, ar) + [rng.choice([[1, 1], [2, 1], [3, 1], [1, 2], [5, 2], [7, 10]])])
         call = rng.choice(["layout", "layout", "both", "force"])
         n = rng.choice([0, 1, 2, 5, 20, 100]) if call == "layout" else rng.choice([0, 1, 2, 5, 20])
+        if long:
+            call, n = "force", rng.choice([101, 150, 250])
         cases.append({"W": W, "H": H, "mods": mods, "nets": nets, "n": n,
                       "kappa1000": rng.choice([100, 400, 700, 1000, 1500, 3000]), "call": call, "origin": "random",
                       "flavour": rng.randrange(4)})
@@ -469,6 +478,19 @@ def run(ctx: Ctx) -> int:
     cases = [from_tlc(g, rng, i) for i, g in enumerate(gen)]
     n_tlc = len(cases)
     cases += random_cases(rng, 120 if tier == "quick" else 1500)
+    # force_algorithm asked for MORE iterations than its default (101, 150, 250): every try must run with what the caller
+    # asked for.  Own generator state, so that the cases above do not depend on this block.
+    rng2 = random.Random(ctx.seed * 1000003 + 1313)
+    glong = tlc.generate(ctx, "Force", "Force_gen_long")
+    glong.sort(key=lambda g: json.dumps(g, sort_keys=True))
+    step = 48 if tier == "quick" else 3
+    first_long = len(cases)
+    for i, g in enumerate(glong[::step]):
+        cases.append(dict(from_tlc(g, rng2, i), call="force"))
+    cases += random_cases(rng2, 4 if tier == "quick" else 60, long=True)
+    for i, c in enumerate(cases[first_long:]):      # one embedding each (26 + 13 layouts of up to 250 iterations per embedding)
+        c["embs"] = [ORIGIN0[i % len(ORIGIN0)]]
+    ctx.extra["force_algorithm_cases_above_100_iterations"] = len(cases) - first_long
     decide(ctx, cases, stride=1 if tier == "quick" else 3)
     ctx.extra["embeddings"] = ORIGIN0
     ctx.extra["cases_from_tlc"] = n_tlc
